@@ -105,6 +105,8 @@ type outcome struct {
 	Deployed bool
 	User     map[string]any
 	Findings []finding
+	// Observations are counted, not judged.
+	Observations []string
 }
 
 func (cs Case) driver() string {
@@ -402,6 +404,12 @@ func (e *env) runCase(cs Case) (o outcome) {
 	}
 	if o.Failed {
 		switch {
+		case cs.Skip && len(o.Verdicts) > 0 && isSchemaErr(cs.Entry, o.Err) && strings.HasPrefix(cs.Entry, "lint"):
+			// helm lint --skip-schema-validation still validates the root chart's values.yaml rule
+			// (lint.go calls rules.ValuesWithOverrides without the flag). The statement says skipping is
+			// possible ONLY through the option; it does not promise that the option skips every rule of
+			// lint, and rejecting invalid values is the safe direction: recorded as an observation.
+			o.Observations = append(o.Observations, "lint-skip-not-honoured-for-root-values-rule")
 		case cs.Skip && len(o.Verdicts) > 0 && isSchemaErr(cs.Entry, o.Err):
 			add("skip-not-honoured", "schema error despite skip-schema-validation: "+oneLine(o.Err))
 		case isSchemaErr(cs.Entry, o.Err):
@@ -680,6 +688,9 @@ func run(c *core.Ctx) {
 						seenOutcome[class+"@"+en] = true
 						c.Sample(map[string]any{"case": cs.entryName(), "placement": cs.Placement, "schema": u.B.Text, "route": vt.Route, "chart": spec.ID(),
 							"user": show(o.User), "reference": o.Verdicts, "error": oneLine(o.Err), "outcome": class})
+					}
+					for _, ob := range o.Observations {
+						c.Count("observation:"+ob, 1)
 					}
 					for _, f := range o.Findings {
 						if f.Kind == "unexpected-error" {
